@@ -16,7 +16,7 @@ RULE = ("one evaluation = one operation sequence over the store API run in lock-
 ASSUMPTIONS = ["SQLite's own atomic commit and the filesystem are trusted; only process death (os._exit) is modelled",
                "sessions use device id 1 and numeric recipient ids, as every caller in the library does",
                "one-time/signed prekeys are stored under fresh ids only (the library never overwrites an id)"]
-REQUIRED = ["busy_start_cases", "busy_start_ok", "sequences", "reopen_checks", "replace_ops", "crash_children", "crash_died_inside", "crash_outcome:old",
+REQUIRED = ["reopen_right_after_again", "busy_start_cases", "busy_start_ok", "sequences", "reopen_checks", "replace_ops", "crash_children", "crash_died_inside", "crash_outcome:old",
             "crash_outcome:new", "conversation_restarts", "crash_kind:sql", "crash_kind:commit", "crash_kind:line",
             "manager_sequences", "manager_kill_snapshots", "manager_prekeys_generated", "crash_cases_with_in_process_history"]
 TIMEOUT = {"quick": 900, "thorough": 7200}
@@ -65,6 +65,11 @@ class Material(object):
             self.senderkeys.append(sks.loadSenderKey(name).serialize())
             GroupCipher(sks, name).encrypt(b"x" * (i + 1))
             self.senderkeys.append(sks.loadSenderKey(name).serialize())
+        # other records under the same ids (for "store again under an id that is taken")
+        from axolotl.state.prekeyrecord import PreKeyRecord
+        from axolotl.ecc.curve import Curve
+        self.prekeys_alt = [PreKeyRecord(k.getId(), Curve.generateKeyPair()) for k in self.prekeys]
+        self.signed_alt = [KeyHelper.generateSignedPreKey(ikp, k.getId()) for k in self.signed]
 
 
 # ---------------------------------------------------------------------------------------------
@@ -90,7 +95,10 @@ GROUPS = ["%d-%d@g.us" % (4915000 + i, 1500000000 + i) for i in range(3)]
 SENDERS = ["4917%d" % i for i in range(3)]
 
 OPS = ["storeSession", "deleteSession", "deleteAllSessions", "saveIdentity", "storePreKey", "removePreKey", "setAsSent",
-       "storeSignedPreKey", "removeSignedPreKey", "storeSenderKey", "loads"]
+       "storeSignedPreKey", "removeSignedPreKey", "storeSenderKey", "loads", "storeSignedPreKeyAgain", "storePreKeyAgain"]
+# "...Again": a record is stored under an id that is taken. The library may refuse (the store then stays as it is) or replace;
+# whichever the live store shows after the call is what a restart has to show as well.
+AGAIN = ("storeSignedPreKeyAgain", "storePreKeyAgain")
 
 
 def gen_op(r, model, mat, want=None):
@@ -122,6 +130,14 @@ def gen_op(r, model, mat, want=None):
         if op == "removeSignedPreKey":
             if model.signed:
                 return [op, r.choice(sorted(model.signed))]
+        if op == "storeSignedPreKeyAgain":
+            taken = [i for i, k in enumerate(mat.signed) if k.getId() in model.signed]
+            if taken:
+                return [op, r.choice(taken), r.random() < 0.5]
+        if op == "storePreKeyAgain":
+            taken = [i for i, k in enumerate(mat.prekeys) if k.getId() in model.prekeys]
+            if taken:
+                return [op, r.choice(taken), r.random() < 0.5]
         if op == "storeSenderKey":
             return [op, r.choice(GROUPS), r.choice(SENDERS), r.randrange(len(mat.senderkeys))]
         if op == "loads":
@@ -160,6 +176,39 @@ def apply_model(op, model, mat):
         model.signed.pop(op[1], None)
     elif k == "storeSenderKey":
         model.senderkeys[(op[1], op[2])] = mat.senderkeys[op[3]]
+
+
+def apply_again(op, store, model, mat):
+    """Returns 'refused' / 'replaced' / 'kept' and brings the model in line with what the live store shows."""
+    import sqlite3
+    k = op[0]
+    if k == "storeSignedPreKeyAgain":
+        rec = (mat.signed_alt if op[2] else mat.signed)[op[1]]
+        try:
+            store.storeSignedPreKey(rec.getId(), rec)
+            out = "returned"
+        except sqlite3.IntegrityError:
+            out = "refused"
+        live = store.loadSignedPreKey(rec.getId()).serialize()
+        if live not in (model.signed[rec.getId()], rec.serialize()):
+            return "garbage"
+        out = "refused" if out == "refused" else ("replaced" if live == rec.serialize() and live != model.signed[rec.getId()] else "kept")
+        model.signed[rec.getId()] = live
+        return out
+    rec = (mat.prekeys_alt if op[2] else mat.prekeys)[op[1]]
+    try:
+        store.storePreKey(rec.getId(), rec)
+        out = "returned"
+    except sqlite3.IntegrityError:
+        out = "refused"
+    live = store.loadPreKey(rec.getId()).serialize()
+    old = model.prekeys[rec.getId()]
+    if live not in (old[0], rec.serialize()):
+        return "garbage"
+    unsent = set(x.getId() for x in store.preKeyStore.loadUnsentPendingPreKeys())
+    out = "refused" if out == "refused" else ("replaced" if live == rec.serialize() and live != old[0] else "kept")
+    model.prekeys[rec.getId()] = (live, rec.getId() not in unsent)
+    return out
 
 
 def apply_store(op, store, mat):
@@ -314,12 +363,32 @@ def sequence_case(acc, seed, tag, nops, mat):
             replaced += 1
             acc.count("replace_ops")
         try:
-            apply_store(op, store, mat)
+            if op[0] in AGAIN:
+                out = apply_again(op, store, model, mat)
+                acc.count("again:%s:%s" % (op[0], out))
+                if out == "garbage":
+                    acc.violation("again-garbage:%s" % op[0], "after storing under a taken id the store shows a record that is neither the old nor the new one", {"kind": "sequence", "tag": tag, "nops": nops, "ops": ops})
+                    close_store(store)
+                    return
+            else:
+                apply_store(op, store, mat)
         except Exception as e:  # noqa
             acc.violation("op-raises:%s:%s" % (op[0], type(e).__name__), "%s raised %r" % (op[0], e), {"kind": "sequence", "tag": tag, "nops": nops, "ops": ops})
             close_store(store)
             return
-        apply_model(op, model, mat)
+        if op[0] not in AGAIN:
+            apply_model(op, model, mat)
+        if op[0] in AGAIN and r.random() < 0.5:
+            # (often a restart right after it, before any other write commits on the shared connection)
+            close_store(store)
+            store = open_store(path)
+            acc.count("reopen_checks")
+            acc.count("reopen_right_after_again")
+            d = model_diff(model, read_store(store, mat))
+            if d:
+                acc.violation("reopen-differs:%s" % d.split("[")[0], "after storing under a taken id (%s), close and reopen: %s" % (out, d), {"kind": "sequence", "tag": tag, "nops": nops, "ops": ops})
+                close_store(store)
+                return
         if op[0] == "loads" or r.random() < 0.15:
             d = model_diff(model, read_store(store, mat))
             if d:
